@@ -25,6 +25,8 @@ class Consumer(Entity):
         super().__init__(name)
         self.queue, self.script, self.log = queue, script, log
         self.n = 0
+        self.held = []
+        self.late_acked = []
 
     def handle_event(self, event):
         mid = event.context["message_id"]
@@ -38,6 +40,8 @@ class Consumer(Entity):
             self.queue.reject(mid, requeue=True)
         elif act == 2:
             self.queue.reject(mid, requeue=False)
+        else:
+            self.held.append((mid, label))          # no reaction now; may be acknowledged late
         return None
 
 
@@ -57,6 +61,19 @@ class Driver(Entity):
             return gen()
         if label.startswith("poll"):
             return [Event(time=self.now, event_type="poll", target=self.queue)]
+        if label == "visibility_timeout":
+            # the application notices unacknowledged deliveries and asks for redelivery
+            out = []
+            for mid in list(self.queue._in_flight):
+                ev = self.queue.schedule_redelivery(mid)
+                if ev is not None:
+                    out.append(ev)
+            return out
+        if label == "late_ack":
+            for (mid, lab) in self.consumer.held:
+                self.queue.acknowledge(mid)
+                self.consumer.late_acked.append((lab, self.now.nanoseconds))
+            self.consumer.held = []
         return None
 
 
@@ -72,6 +89,7 @@ def message_queue(sym, tier):
     c1 = Consumer("c1", q, script, log)
     q.subscribe(c1)
     drv = Driver("drv", q)
+    drv.consumer = c1
     sim = Simulation(entities=[q, dlq, c1, drv])
     mon = Monitor(sim, cap=60)
     t_pub = [0, sym.int("pub1_at_ms", 0, 3) * MS]
@@ -82,6 +100,11 @@ def message_queue(sym, tier):
         tp = tp + sym.int(f"poll{i}_gap_ms", 1, 3) * MS
         polls.append(tp)
         evs.append(mk_event(tp, f"poll{i}", drv))
+    if sym.bool("visibility_timeout_and_late_ack"):
+        vt = tp + 1 * MS
+        evs.append(mk_event(vt, "visibility_timeout", drv))
+        evs.append(mk_event(vt + sym.pick("late_ack_gap_ms", [1, 9, 11, 14]) * MS, "late_ack", drv))
+        r.wit.add("timeout_then_late_ack")
     evs.append(mk_event(60 * MS, "keepalive", drv))
     sim.schedule(evs)
     try:
@@ -98,16 +121,19 @@ def message_queue(sym, tier):
         r.bad("every_started_delivery_reaches_a_consumer", {"started": started, "received": len(log)})
     # accounting: published = pending + in flight + acknowledged + dead-lettered (+ rejected without DLQ: none here)
     st = q.stats
-    total = q.pending_count + q.in_flight_count + st.messages_acknowledged + dlq.message_count
+    # a message acknowledged while it sat in the pending list (after schedule_redelivery) leaves a stale id there
+    live_pending = len({m_ for m_ in q._pending_queue if m_ in q._messages and m_ not in q._in_flight})
+    total = live_pending + q.in_flight_count + st.messages_acknowledged + dlq.message_count
     if total != st.messages_published:
-        r.bad("every_published_message_stays_accounted_for", {"published": st.messages_published, "pending": q.pending_count, "in_flight": q.in_flight_count,
+        r.bad("every_published_message_stays_accounted_for", {"published": st.messages_published, "pending": live_pending, "in_flight": q.in_flight_count,
                                                               "acked": st.messages_acknowledged, "dead_lettered": dlq.message_count})
     acked = set()
     firsts = []
     counts = {}
+    late = dict(c1.late_acked)
     for (label, cnt, now_ns, ev_ns, act, cname) in log:
-        if label in acked:
-            r.bad("nothing_delivered_after_acknowledgement", label)
+        if label in acked or (label in late and now_ns > late[label]):
+            r.bad("nothing_delivered_after_acknowledgement", {"label": label, "delivered_at_ns": now_ns, "acked_late_at_ns": late.get(label), "log": [list(x) for x in log]})
         if cnt == 1:
             firsts.append(label)
         counts[label] = counts.get(label, 0) + 1
@@ -121,7 +147,7 @@ def message_queue(sym, tier):
             pass
     dl_labels = [m.payload.context["metadata"]["label"] for m in dlq.messages]
     for (label, cnt, now_ns, ev_ns, act, cname) in log:
-        if act in (1, 2) and (act == 2 or cnt >= maxr) and label not in dl_labels and label not in acked:
+        if act in (1, 2) and (act == 2 or cnt >= maxr) and label not in dl_labels and label not in acked and label not in late:
             r.bad("redelivery_limit_moves_message_to_dlq", {"label": label, "delivery_count": cnt, "max": maxr, "dlq": dl_labels})
     if dl_labels:
         r.wit.add("dead_lettered")
@@ -231,11 +257,13 @@ MANIFEST = {
 
 HARNESSES = [
     H(name="c19_message_queue", fn=message_queue, shape="S", budget=lambda tier: 900.0 if tier == "quick" else 3000.0,
-      cubes=lambda tier: [{"delivery_latency": a, "max_redeliveries_minus_1": b, "action0": c} for a in range(2) for b in range(2) for c in range(4)],
-      require=lambda tier: ["redelivered", "dead_lettered", "non_zero_delivery_latency"], classify=mq_classify,
+      cubes=lambda tier: ([{"delivery_latency": a, "max_redeliveries_minus_1": b, "action0": c, "visibility_timeout_and_late_ack": 0} for a in range(2) for b in range(2) for c in range(4)]
+                          + [{"delivery_latency": a, "max_redeliveries_minus_1": 1, "action0": 3, "visibility_timeout_and_late_ack": 1, "late_ack_gap_ms": g,
+                              **({"pub1_at_ms": 0} if tier == "quick" else {})} for a in range(2) for g in range(4)]),
+      require=lambda tier: ["redelivered", "dead_lettered", "non_zero_delivery_latency", "timeout_then_late_ack"], classify=mq_classify,
       functions=["MessageQueue.publish/poll/_deliver_message/acknowledge/reject/handle_event/_get_next_consumer", "DeadLetterQueue.add_message"],
-      bounds=lambda tier: {"messages": 2, "polls": 3 if tier == "quick" else 4, "consumer actions": ["ack", "reject+requeue", "reject", "ignore"], "max_redeliveries": [1, 2], "delivery latency": [0.0, 0.001]},
-      outside=["schedule_redelivery timeouts", "several consumers / unsubscribe during a delivery", "Topic fan-out", "EventLog offsets and retention", "stream_processor, outbox_relay, idempotency_store"]),
+      bounds=lambda tier: {"messages": 2, "polls": 3 if tier == "quick" else 4, "consumer actions": ["ack", "reject+requeue", "reject", "ignore (optionally acknowledged late after a visibility timeout + schedule_redelivery)"], "max_redeliveries": [1, 2], "delivery latency": [0.0, 0.001]},
+      outside=["several consumers / unsubscribe during a delivery", "Topic fan-out", "EventLog offsets and retention", "stream_processor, outbox_relay, idempotency_store"]),
     H(name="c19_assignment", fn=assignment, shape="S", budget=lambda tier: 900.0 if tier == "quick" else 3000.0,
       cubes=lambda tier: [{"strategy": a, "partitions_minus_2": b, "who0": 0, "who1": c} for a in range(3) for b in range(3) for c in range(3)],
       require=lambda tier: ["two_members", "script_completed"], classify=asg_classify,
